@@ -47,6 +47,10 @@ def run(ctx):
     r2(ctx)
     r3(ctx)
     r4(ctx)
+    # automatic detection relies on the marker scan: the scanner obligations of C15 are necessary conditions here
+    from rules import c15
+
+    ctx.import_obligations("R5", c15.scanner_obligations, "")
 
 
 def r1(ctx):
